@@ -58,10 +58,10 @@ func callArgPositions(text string) []Pos {
 	return out
 }
 
-const c09SharedText = "print(_G.whoami, whoami)\nwhich(1)\n_G.dupg = \"shared\"\nfunction _G.dupgf(a, b)\n  return b\nend\nlocal M = {}\nreturn M\n"
+const c09SharedText = "print(_G.whoami, whoami)\nwhich(1)\n_G.dupg = \"shared\"\nfunction _G.dupgf(a, b)\n  return b\nend\nplaing = \"shared\"\nfunction plainf(a, b)\n  return b\nend\nlocal M = {}\nreturn M\n"
 
 // pa.lua: entry file of one twin; it also pulls in two modules that define the same _G names
-const c09PaText = "local s = require(\"pshared\")\nlocal e = require(\"pextra\")\n_G.whoami = 1\nfunction which(a)\n  return a\nend\nprint(s, e, _G.dupg, dupg)\ndupgf(1)\n"
+const c09PaText = "local s = require(\"pshared\")\nlocal e = require(\"pextra\")\n_G.whoami = 1\nfunction which(a)\n  return a\nend\nprint(s, e, _G.dupg, dupg)\ndupgf(1)\nprint(plaing)\nplainf(1)\n"
 
 const c09TwiceText = "---@class Twice\n---@field first number\nlocal TA = {}\n---@type Twice\nlocal mid = nil\nprint(mid.first, mid.second)\n---@class Twice\n---@field second string\nlocal TB = {}\nprint(TA, TB)\n"
 
@@ -212,7 +212,7 @@ func genC09(seed int64, tier string) *Scenario {
 			// from the same project
 			sc.Files = append(sc.Files,
 				File{Path: "pa.lua", Data: Bytes(c09PaText)},
-				File{Path: "pextra.lua", Data: Bytes("_G.dupg = \"extra\"\nfunction _G.dupgf(a)\n  return a\nend\nreturn {}\n")},
+				File{Path: "pextra.lua", Data: Bytes("_G.dupg = \"extra\"\nfunction _G.dupgf(a)\n  return a\nend\nplaing = \"extra\"\nfunction plainf(a)\n  return a\nend\nreturn {}\n")},
 				File{Path: "pb.lua", Data: Bytes("local s = require(\"pshared\")\n_G.whoami = \"b\"\nfunction which(a, b)\n  return b\nend\nprint(s)\n")},
 				File{Path: "pshared.lua", Data: Bytes(c09SharedText)})
 			entries = append(entries, "pa.lua", "pb.lua")
